@@ -34,7 +34,7 @@ def gen(rng, i, tier):
         phases=1.0, phase_conf=rng.choice([0.4, 0.7, 0.9]), sleep=0.8, iq=0.6, max_depth=rng.choice([3, 6]),
         rails=rng.choice([0.0, 0.3]), rt=0.3,
     )
-    return {"spec": spec, "tol": 1e-6, "ta": 25.0}
+    return {"spec": spec, "tol": 1e-6, "ta": 25.0, "history": rng.choice(_rows.HISTORIES), "hseed": rng.randrange(1 << 30)}
 
 
 def directed():
@@ -42,8 +42,8 @@ def directed():
 
 
 def run(ctx, case):
-    spec = case["spec"]
     df, info, sysobj = _rows.solve_and_judge(ctx, case, ACCEPT)
+    spec = case["spec"]  # (the effective spec: a history may have reset some phase configurations)
     phases = list(spec["phases"].keys())
     # (iii) unknown phase
     for bad in ("ghost", "nope", phases[0] + " "):
